@@ -204,7 +204,8 @@ abbrev HV := List V
 def hxor (a b : HV) : HV := FinSet.symdiff a b
 def hatom (tag : String) (payload : V) (seed : HV) : HV := [.tup [(tag, payload), ("seed", .set seed)]]
 def numsV (l : List Int) : V := .set (l.map (fun x => .num x))
-def nameV (n : String) : V := numsV (n.toList.map (fun c => (c.toNat : Int)))
+/-- payload of `hash.String(name)`: injective in the name -/
+def nameV (n : String) : V := .tup [(n, .num 0)]
 
 /-- `finishHash(h, seed)` (repaired) vs. `pre ^ h` (before) -/
 def hfin (rep : Bool) (pre h seed : HV) : HV := if rep then hatom "fin" (.set h) seed else hxor pre h
